@@ -175,15 +175,15 @@ TraceNext ==
               post == Adopt(pred, r)
               div0 == IF pred0.halt # "" THEN {} ELSE {f \in ObsFields : pred[f] # r[f]}
               div1 == IF a.a = "Tx" /\ pred.lastRes # e.res.class THEN {"lastRes"} ELSE {}
-              div2 == IF a.a \in {"EndBlock", "InitChain"} /\ pred.lastUpd # PairSet(e.res.updates) THEN {"lastUpd"} ELSE {}
-              div3 == IF a.a \in {"EndBlock", "InitChain"} /\ e.res.upddup THEN {"updDup"} ELSE {}
+              div2 == IF a.a \in {"EndBlock", "InitChain", "ExportImport"} /\ pred.lastUpd # PairSet(e.res.updates) THEN {"lastUpd"} ELSE {}
+              div3 == IF a.a \in {"EndBlock", "InitChain", "ExportImport"} /\ e.res.upddup THEN {"updDup"} ELSE {}
               \* Tendermint's own ValidatorSet.UpdateWithChangeSet is the oracle for "can be applied"
               \* (its refusal to end up with an EMPTY set is not among the conditions C05 lists)
-              tmbad == IF a.a \in {"EndBlock", "InitChain"} /\ e.res.tmerr # "" /\ e.res.tmerr # "applying the validator changes would result in empty set"
+              tmbad == IF a.a \in {"EndBlock", "InitChain", "ExportImport"} /\ e.res.tmerr # "" /\ e.res.tmerr # "applying the validator changes would result in empty set"
                        THEN {"C05.TendermintAccepts"} ELSE {}
               div4 == IF e.post.anomalies > 0 THEN {"anomalies"} ELSE {}
               \* the Tendermint side follows the REAL updates
-              post2 == IF a.a \in {"EndBlock", "InitChain"} /\ div2 # {}
+              post2 == IF a.a \in {"EndBlock", "InitChain", "ExportImport"} /\ div2 # {}
                        THEN LET upd == PairSet(e.res.updates)
                                 base == IF a.a = "InitChain" THEN pre.vs[3] ELSE pre.vs[3]
                                 ok == \A u \in upd : u[1] \in Users /\ Applicable(base, {u})
